@@ -250,6 +250,10 @@ func parseTOCEStargz(r io.Reader) (toc *JTOC, tocDgst digest.Digest, err error) 
 	if err := json.NewDecoder(io.TeeReader(tr, dgstr.Hash())).Decode(&toc); err != nil {
 		return nil, "", fmt.Errorf("error decoding TOC JSON: %v", err)
 	}
+	// The digest covers the whole TOC entry, including the bytes following the JSON value.
+	if _, err := io.Copy(dgstr.Hash(), tr); err != nil {
+		return nil, "", fmt.Errorf("error reading TOC JSON: %v", err)
+	}
 	if err := tr.Close(); err != nil {
 		return nil, "", err
 	}
